@@ -126,3 +126,89 @@ def build_plainmix(desc):
         else:
             out = out + piece
     return out if out is not None else FmtStr()
+
+
+# ---------------------------------------------------------------------------------------
+# values with a history: observations that fill caches, and derivations from observed parents
+
+
+def observe(f, bits):
+    """Perform non-mutating public operations on f (selected by the bits of `bits`) so that every memoised view and
+    lazily built index exists *before* the operation under test.  None of these may change f."""
+    n = len(f.s) if bits & 4 else None
+    ops = (
+        lambda: str(f), lambda: len(f), lambda: f.s, lambda: f.width, lambda: hash(f), lambda: repr(f),
+        lambda: f.divides, lambda: f.splice("x", min(1, len(f.s))), lambda: f.append("y"), lambda: f[0:1],
+        lambda: f.shared_atts, lambda: f == f.copy(), lambda: f.splice("zz", 0, min(2, len(f.s))), lambda: f[len(f.s) // 2 :],
+        lambda: f.setitem(0, "q") if len(f.s) else None, lambda: list(f.width_aware_splitlines(3)),
+    )
+    for i, op in enumerate(ops):
+        if bits >> i & 1:
+            try:
+                op()
+            except Exception:
+                pass
+
+
+DERIVED = ("d_removed", "d_false", "d_slice", "d_concat", "d_copy", "d_mul")
+
+
+def build_derived(desc, recipe, bits=0xFFFF):
+    """A FmtStr whose cells are cells_of_desc(desc), obtained from *observed* parents through public operations."""
+    from curtsies.formatstring import FmtStr, fmtstr
+
+    if recipe == "d_removed":
+        used = {k for _, a in desc for k in a}
+        free = [k for k in ("underline", "blink", "bold", "bg", "fg", "invert", "italic", "dark") if k not in used]
+        if not free or not desc:
+            return build(desc, "chunks")
+        x = free[0]
+        val = 32 if x == "fg" else 42 if x == "bg" else True
+        parent = build([[t, {**a, x: val}] for t, a in desc], "chunks")
+        observe(parent, bits)
+        return parent.new_with_atts_removed(x)
+    if recipe == "d_false":
+        on = {k for _, a in desc for k, v in a.items() if v}
+        free = [k for k in STYLES if k not in on]
+        if not free or not desc:
+            return build(desc, "chunks")
+        x = free[len(desc) % len(free)]
+        parent = build([[t, {**{k: v for k, v in a.items() if k != x}, x: True}] for t, a in desc], "chunks")
+        observe(parent, bits)
+        return fmtstr(parent, **{x: False})
+    if recipe == "d_slice":
+        parent = build([["<<", {"fg": 35}]] + [list(r) for r in desc] + [[">>", {"bg": 46}]], "chunks")
+        observe(parent, bits)
+        n = sum(len(t) for t, _ in desc)
+        return parent[2 : 2 + n]
+    if recipe == "d_concat":
+        out = FmtStr()
+        for t, a in desc:
+            part = build([[t, a]], "chunks")
+            observe(part, bits)
+            observe(out, bits)
+            out = out + part
+        return out
+    if recipe == "d_copy":
+        parent = build(desc, "chunks")
+        observe(parent, bits)
+        return parent.copy()
+    if recipe == "d_mul":
+        # value built by repetition: the same run objects appear several times
+        for n in (3, 2):
+            if desc and len(desc) % n == 0 and desc == desc[: len(desc) // n] * n:
+                base = build(desc[: len(desc) // n], "chunks")
+                observe(base, bits)
+                return base * n
+        parent = build(desc, "chunks")
+        observe(parent, bits)
+        return parent * 1
+    raise ValueError(recipe)
+
+
+def build_any(desc, mode="chunks", bits=0):
+    """build by plain mode or derived recipe; then (optionally) observe the result itself"""
+    f = build_derived(desc, mode, bits or 0x3F) if mode in DERIVED else (build_plainmix(desc) if mode == "plainmix" else build(desc, mode))
+    if bits:
+        observe(f, bits)
+    return f
